@@ -17,6 +17,7 @@ import (
 	"runtime"
 	"sort"
 	"strings"
+	"sync"
 	"time"
 
 	"github.com/alephium/wormhole-fork/node/cmd/guardiand"
@@ -35,49 +36,79 @@ var r *ev.Run
 
 // ---- harness-owned clock
 type hclock struct {
+	mu      sync.Mutex
 	now     time.Time
-	tickers []*htick
+	tickers []*htick // tickers AND one-shot timers, in creation order
 	reads   uint64
-	// every clock method other than Now / Ticker / Since / Until is served by a mock clock that is created on
-	// first use and kept at the harness's time (the unchanged dispatcher uses Now and Ticker only; a changed one
-	// may arm timers)
-	mock *clock.Mock
 }
 
-func (h *hclock) m() *clock.Mock {
-	if h.mock == nil {
-		h.mock = clock.NewMock()
-		h.mock.Set(h.now)
+// htick is a ticker (period > 0) or a one-shot timer of the harness clock. It implements Stop and Reset for the
+// clock library's Ticker / Timer structs (Verif field, added through the build overlay).
+type htick struct {
+	h       *hclock
+	c       chan time.Time
+	period  time.Duration
+	next    time.Time
+	stopped bool
+	fn      func()
+}
+
+func (t *htick) Stop() bool {
+	t.h.mu.Lock()
+	defer t.h.mu.Unlock()
+	was := !t.stopped
+	t.stopped = true
+	return was
+}
+func (t *htick) Reset(d time.Duration) bool {
+	t.h.mu.Lock()
+	defer t.h.mu.Unlock()
+	was := !t.stopped
+	if t.period > 0 {
+		t.period = d
 	}
-	return h.mock
+	t.next, t.stopped = t.h.now.Add(d), false
+	return was
 }
-func (h *hclock) Since(t time.Time) time.Duration        { return h.now.Sub(t) }
-func (h *hclock) Until(t time.Time) time.Duration        { return t.Sub(h.now) }
-func (h *hclock) After(d time.Duration) <-chan time.Time { return h.m().After(d) }
+
+func (h *hclock) add(d, period time.Duration, fn func()) *htick {
+	h.mu.Lock()
+	defer h.mu.Unlock()
+	t := &htick{h: h, c: make(chan time.Time, 1), period: period, next: h.now.Add(d), fn: fn}
+	h.tickers = append(h.tickers, t)
+	return t
+}
+
+func (h *hclock) Now() time.Time {
+	h.mu.Lock()
+	defer h.mu.Unlock()
+	h.reads++
+	return h.now
+}
+func (h *hclock) Since(t time.Time) time.Duration { return h.Now().Sub(t) }
+func (h *hclock) Until(t time.Time) time.Duration { return t.Sub(h.Now()) }
+func (h *hclock) Ticker(d time.Duration) *clock.Ticker {
+	t := h.add(d, d, nil)
+	return &clock.Ticker{C: t.c, Verif: t}
+}
+func (h *hclock) Tick(d time.Duration) <-chan time.Time { return h.add(d, d, nil).c }
+func (h *hclock) Timer(d time.Duration) *clock.Timer {
+	t := h.add(d, 0, nil)
+	return &clock.Timer{C: t.c, Verif: t}
+}
+func (h *hclock) After(d time.Duration) <-chan time.Time { return h.add(d, 0, nil).c }
 func (h *hclock) AfterFunc(d time.Duration, f func()) *clock.Timer {
-	return h.m().AfterFunc(d, f)
+	t := h.add(d, 0, f)
+	return &clock.Timer{C: t.c, Verif: t}
 }
-func (h *hclock) Sleep(d time.Duration)                 { h.m().Sleep(d) }
-func (h *hclock) Tick(d time.Duration) <-chan time.Time { return h.m().Tick(d) }
-func (h *hclock) Timer(d time.Duration) *clock.Timer    { return h.m().Timer(d) }
+func (h *hclock) Sleep(d time.Duration) { <-h.add(d, 0, nil).c }
 func (h *hclock) WithDeadline(ctx context.Context, t time.Time) (context.Context, context.CancelFunc) {
-	return h.m().WithDeadline(ctx, t)
+	return h.WithTimeout(ctx, t.Sub(h.Now()))
 }
 func (h *hclock) WithTimeout(ctx context.Context, d time.Duration) (context.Context, context.CancelFunc) {
-	return h.m().WithTimeout(ctx, d)
-}
-
-type htick struct {
-	c      chan time.Time
-	period time.Duration
-	next   time.Time
-}
-
-func (h *hclock) Now() time.Time { h.reads++; return h.now }
-func (h *hclock) Ticker(d time.Duration) *clock.Ticker {
-	t := &htick{c: make(chan time.Time, 1), period: d, next: h.now.Add(d)}
-	h.tickers = append(h.tickers, t)
-	return &clock.Ticker{C: t.c}
+	c, cancel := context.WithCancel(ctx)
+	t := h.add(d, 0, cancel)
+	return c, func() { t.Stop(); cancel() }
 }
 
 // ---- alphabet
@@ -198,44 +229,45 @@ func (s *sys) viol(key, what string, hist []int) {
 }
 
 func (s *sys) advance(d time.Duration, hist []int) {
-	target := s.clk.now.Add(d)
+	h := s.clk
+	h.mu.Lock()
+	target := h.now.Add(d)
+	h.mu.Unlock()
 	for {
+		h.mu.Lock()
 		var nt *htick
-		for _, t := range s.clk.tickers {
-			if !t.next.After(target) && (nt == nil || t.next.Before(nt.next)) {
+		for _, t := range h.tickers {
+			if !t.stopped && !t.next.After(target) && (nt == nil || t.next.Before(nt.next)) {
 				nt = t
 			}
 		}
-		if s.clk.mock != nil {
-			// timers armed on the mock clock: move in steps of at most a minute so that they fire close to their
-			// nominal time (a timer firing a little late is legal behaviour of any clock)
-			step := s.clk.now.Add(time.Minute)
-			if step.After(target) {
-				step = target
-			}
-			if nt == nil || step.Before(nt.next) {
-				if !step.After(s.clk.now) {
-					break
-				}
-				s.clk.now = step
-				s.clk.mock.Set(step)
-				s.quiesce(hist)
-				continue
-			}
-			s.clk.mock.Set(nt.next)
-		}
 		if nt == nil {
+			h.mu.Unlock()
 			break
 		}
-		s.clk.now = nt.next
-		nt.next = nt.next.Add(nt.period)
-		select {
-		case nt.c <- s.clk.now:
-		default: // a real ticker drops the tick when the slot is full
+		if nt.next.After(h.now) {
+			h.now = nt.next
+		}
+		if nt.period > 0 {
+			nt.next = nt.next.Add(nt.period)
+		} else {
+			nt.stopped = true
+		}
+		now, fn := h.now, nt.fn
+		h.mu.Unlock()
+		if fn != nil {
+			go fn()
+		} else {
+			select {
+			case nt.c <- now:
+			default: // a real ticker drops the tick when the slot is full
+			}
 		}
 		s.quiesce(hist)
 	}
-	s.clk.now = target
+	h.mu.Lock()
+	h.now = target
+	h.mu.Unlock()
 }
 
 func (s *sys) qlens() map[uint16]int {
@@ -466,6 +498,7 @@ func main() {
 		postFull()
 		postFullAdmin()
 		volume()
+		steady()
 		productionWiring()
 		r.Fork(len(cfgs), nil, nil)
 		r.Set("rule", "state key = per (chain, tx) exact ages of last forward / drop / request (harness's own record), phase of the 7-minute purge ticker, queue fill levels; every transition is performed on the real dispatcher goroutine and judged after quiescence")
@@ -633,6 +666,54 @@ func volume() {
 		}
 	}
 	r.Add("volume_requests", len(hist))
+}
+
+// steady: one watched transaction under STEADY traffic - a fresh transaction is requested (and forwarded) every
+// gap seconds for half an hour, on the same chain or on another one, and the watched transaction is requested again
+// every minute. The oracle of Apply judges every step: never twice within 11 minutes, forwarded again at the
+// latest 18 minutes after its last forward - whatever else the dispatcher is busy with.
+func steady() {
+	for _, gap := range []int{60, 180, 300, 360, 419, 420, 421, 480} {
+		for _, otherChain := range []bool{false, true} {
+			c := config{Name: fmt.Sprintf("steady-traffic/every-%ds/other-chain=%v", gap, otherChain), Caps: map[uint16]int{2: 64, 4: 64}}
+			const horizon = 40 * 60
+			nFresh := horizon/gap + 1
+			ch := uint16(2)
+			if otherChain {
+				ch = 4
+			}
+			for i := 0; i < nFresh; i++ {
+				c.Alphabet = append(c.Alphabet, event{Kind: "req", Chain: ch, Tx: fmt.Sprintf("0x%064x", 0x1000+i)})
+			}
+			watched := len(c.Alphabet)
+			c.Alphabet = append(c.Alphabet, event{Kind: "req", Chain: 2, Tx: "0x" + strings.Repeat("ab", 32)},
+				event{Kind: "drain", Chain: 2}, event{Kind: "drain", Chain: 4}, event{Kind: "adv", Sec: 1})
+			drain2, drain4, adv1 := watched+1, watched+2, watched+3
+			// advance in steps that land exactly on the next interesting second
+			s := newSys(&c)
+			var hist []int
+			do := func(e int) {
+				hist = append(hist, e)
+				s.Apply(e, hist, true)
+			}
+			fresh := 0
+			for t := 0; t <= horizon && !s.dead; t++ {
+				if t%gap == 0 && fresh < nFresh {
+					do(fresh)
+					fresh++
+					do(drain2)
+					do(drain4)
+				}
+				if t%60 == 30 {
+					do(watched)
+					do(drain2)
+				}
+				do(adv1)
+			}
+			r.Add("steady_traffic_steps", len(hist))
+			s.Close()
+		}
+	}
 }
 
 // productionWiring: the explorations above hand the dispatcher a queue map and watch the queues. In the node
